@@ -1,5 +1,6 @@
 """Helpers shared by the property modules (all go through pyubx2's public API)."""
 
+import enum
 import functools
 
 from vp.ref import catalog, codec
@@ -24,6 +25,31 @@ def ubx_errors():
     import pyubx2
 
     return (pyubx2.UBXMessageError, pyubx2.UBXParseError, pyubx2.UBXStreamError, pyubx2.UBXTypeError)
+
+
+class ModeEnum(enum.IntEnum):
+    OUTPUT = 0
+    INPUT = 1
+    POLLING = 2
+    EITHER = 3
+
+
+def uparse(frame, msgmode=0, validate=1, parsebitfield=1):
+    """UBXReader.parse with the documented options given either by keyword, or -
+    for a quarter of the frames, chosen by their last bytes - positionally in
+    the documented order (message, msgmode, validate, parsebitfield)."""
+    import pyubx2
+
+    if len(frame) >= 2 and isinstance(msgmode, int) and 0 <= msgmode <= 3:
+        # the mode as an equal value of another integer type (an IntEnum of the
+        # application's, a bool), for an eighth of the frames each
+        if frame[-1] % 8 == 3:
+            msgmode = ModeEnum(msgmode)
+        elif frame[-1] % 8 == 5 and msgmode in (0, 1):
+            msgmode = bool(msgmode)
+    if len(frame) >= 2 and (frame[-1] + frame[-2]) % 4 == 0:
+        return pyubx2.UBXReader.parse(frame, msgmode, validate, parsebitfield)
+    return pyubx2.UBXReader.parse(frame, msgmode=msgmode, validate=validate, parsebitfield=parsebitfield)
 
 
 def public_attrs(msg):
